@@ -4,10 +4,11 @@ set -e
 cd "$(dirname "$0")"
 java -version 2>&1 | head -1
 /venv/bin/python -c "import physt, numpy; print('physt', physt.__version__, 'numpy', numpy.__version__)"
-mkdir -p .scratch evidence
+mkdir -p .scratch/jtmp evidence
 cd spec
 for f in MC_*.tla; do
-  java -cp /opt/veriftools/tla/tla2tools.jar:/opt/veriftools/tla/CommunityModules-deps.jar tla2sany.SANY "$f" > ../.scratch/sany.log 2>&1 || { cat ../.scratch/sany.log; exit 1; }
+  java -Djava.io.tmpdir=../.scratch/jtmp -cp /opt/veriftools/tla/tla2tools.jar:/opt/veriftools/tla/CommunityModules-deps.jar tla2sany.SANY "$f" > ../.scratch/sany.log 2>&1 || { cat ../.scratch/sany.log; exit 1; }
 done
 cd ..
+rm -rf .scratch/jtmp
 echo "setup ok"
